@@ -210,8 +210,9 @@ class Run:
             "violations": len(unmatched),
         }
         if not self.args.replay:
-            os.makedirs(os.path.join(ROOT, "evidence"), exist_ok=True)
-            out = os.path.join(ROOT, "evidence", f"{self.pid}.json")
+            evdir = os.environ.get("VERIF_EVIDENCE_DIR") or os.path.join(ROOT, "evidence")
+            os.makedirs(evdir, exist_ok=True)
+            out = os.path.join(evdir, f"{self.pid}.json")
             tmp = out + ".tmp"
             with open(tmp, "w") as f:
                 json.dump(ev, f, indent=1, sort_keys=True)
